@@ -61,9 +61,15 @@ func genC17(g *prng.R) c17Case {
 	sc := inboxScenario(nil, nil)
 	sc.Requests = nil
 	sc.Cfg.MaxForward = g.Range(1, 4)
-	sc.Cfg.Filter = pick(g, "all", "all", "first", "none")
+	sc.Cfg.Filter = pick(g, "all", "all", "first", "none", "last", "all-fresh", "reversed-fresh")
 	ownedNote(sc, 1, nil)
+	cs0 := M{}
 	sc.Store[alice()+"/followers"] = M{"@context": AS, "type": "Collection", "id": alice() + "/followers", "items": A{dave(), M{"type": "Person", "id": erin()}}}
+	if g.Chance(1, 8) {
+		// a member kept without an id (it has no inbox to forward to)
+		sc.Store[alice()+"/followers"] = M{"@context": AS, "type": "Collection", "id": alice() + "/followers", "items": A{dave(), M{"type": "Person", "name": "member without id"}, M{"type": "Person", "id": erin()}}}
+		cs0["idless_member"] = true
+	}
 	ownedCollection(sc, "fans", true, erin(), R2+"/users/frank")
 	ownedCollection(sc, "empty", false)
 	sc.Store[L+"/collections/page"] = M{"@context": AS, "type": "OrderedCollectionPage", "id": L + "/collections/page", "orderedItems": A{R2 + "/users/gina"}}
@@ -163,6 +169,10 @@ func genC17(g *prng.R) c17Case {
 					sv = M{"type": "Note", "id": sib}
 				} else if g.Bool() {
 					sc.Remote[sib] = sim.RemoteSpec{Doc: withCtx(M{"type": "Note", "id": sib})}
+					if g.Chance(1, 4) {
+						// what the peer serves there is not a JSON object
+						sc.Remote[sib] = sim.RemoteSpec{Raw: pick(g, "<html><body>gone</body></html>", "[1,2,3]", "{\"truncated\": ")}
+					}
 				}
 				if g.Bool() {
 					doc[key] = A{sv, next}
@@ -336,6 +346,16 @@ func genC17(g *prng.R) c17Case {
 	if g.Chance(1, 5) {
 		act["tag"] = A{M{"type": "Mention", "href": pick(g, alice(), carol())}}
 	}
+	if g.Chance(1, 6) {
+		// the tags most peers send: a type the vocabularies do not define
+		ht := M{"type": "Hashtag", "href": R1 + "/tags/x", "name": "#x"}
+		if g.Bool() {
+			act["tag"] = append(A{ht}, asList(act["tag"])...)
+		} else {
+			act["tag"] = append(asList(act["tag"]), ht)
+		}
+		cs0["hashtag"] = true
+	}
 	// members the forwarding logic has no use for must arrive unchanged all
 	// the same: hidden recipients a peer left on the activity or on an
 	// embedded object, extension members, ordinary descriptive members
@@ -387,8 +407,14 @@ func genC17(g *prng.R) c17Case {
 	preSeen := g.Chance(1, 8)
 	if preSeen {
 		sc.Store[actID] = withCtx(act)
+	} else if g.Chance(1, 10) {
+		// a peer's retry: an earlier attempt got as far as noting the id
+		// in the inbox, but the activity was never recorded - it has not
+		// been seen by the forwarding logic, which must do its work now
+		sc.Inboxes = map[string][]interface{}{sc.Requests[0].URL: {R2 + "/act/older", actID}}
+		cs0["inbox_lists_id_unrecorded"] = true
 	}
-	return c17Case{Sc: sc, Act: act, Info: M{"depth": depth, "own_at": ownAt, "limit": sc.Cfg.MaxForward, "filter": sc.Cfg.Filter, "pre_seen": preSeen}}
+	return c17Case{Sc: sc, Act: act, Info: M{"depth": depth, "own_at": ownAt, "limit": sc.Cfg.MaxForward, "filter": sc.Cfg.Filter, "pre_seen": preSeen, "features": cs0}}
 }
 
 // errFeature keeps the stable part of an error text for the signature.
@@ -405,8 +431,8 @@ func errFeature(e string) string {
 func init() {
 	checks["c17"] = func(id string) int {
 		r := newRun(id, "exploration")
-		r.Rule = "seeded random inbox activities whose to/cc/audience mix owned collections (Collection, OrderedCollection, page, empty), a foreign collection, owned non-collections, actors and Public (as IRIs or embedded) and addressees without an id; reply chains of depth 0..5 through embedded values and dereferenced IRIs (some unreachable or of unknown type, some anonymous embedded siblings) with an owned id at a random level or nowhere; depth limit 1..4; filter all / first / none; each activity delivered 1..3 times to one or two local inboxes, sometimes already stored; the forwarding BatchDeliver (presence, recipients, payload) and the activity's Create count are compared with a model of the three conditions; non-trivial = history in which the model expects a forward; distinct by scenario"
-		r.Assumptions = []string{"recipients are judged as the member ids handed to the transport, as a set", "remote documents are JSON (non-JSON is C11's business)", "owned to/cc/audience values are always stored"}
+		r.Rule = "seeded random inbox activities whose to/cc/audience mix owned collections (Collection, OrderedCollection, page, empty), a foreign collection, owned non-collections, actors and Public (as IRIs or embedded) and addressees without an id; reply chains of depth 0..5 through embedded values and dereferenced IRIs (some unreachable or of unknown type, some anonymous embedded siblings) with an owned id at a random level or nowhere; depth limit 1..4; filter all / first / last / none / equal IRIs in other values, reordered; each activity delivered 1..3 times to one or two local inboxes, sometimes already stored; the forwarding BatchDeliver (presence, recipients, payload) and the activity's Create count are compared with a model of the three conditions; non-trivial = history in which the model expects a forward; distinct by scenario"
+		r.Assumptions = []string{"recipients are judged as the member ids handed to the transport, as a set", "owned to/cc/audience values are always stored"}
 		judge := func(cs c17Case) {
 			sc := cs.Sc
 			res := sim.Run(sc)
@@ -453,6 +479,10 @@ func init() {
 			case "none":
 			case "first":
 				filtered = cols[:min(1, len(cols))]
+			case "last":
+				if len(cols) > 0 {
+					filtered = cols[len(cols)-1:]
+				}
 			default:
 				filtered = cols
 			}
@@ -473,7 +503,7 @@ func init() {
 					creates++
 				}
 				if e.Kind == "app.FilterForwarding" {
-					if !eqStrings(e.Args, cols) {
+					if !sameSet(e.Args, cols) {
 						viol("filter-offered-wrong-collections", e.Site, "FilterForwarding argument", fmt.Sprintf("offered %v want %v", e.Args, cols))
 					}
 				}
@@ -510,6 +540,15 @@ func init() {
 			}
 			if wantForward {
 				r.NonTrivial(jstr(sc.Requests) + jstr(cs.Info))
+				if len(forwards) == 0 && len(wantRecips) == 0 {
+					// nobody to forward to (an empty collection, a filter
+					// that chose nothing): no transport call is needed
+					r.Count("forwards_to_nobody_without_transport_call", 1)
+					return
+				}
+				if len(forwards) == 1 && forwards[0].Req != "r0" {
+					viol("forward-count", "pub.(*sideEffectActor).InboxForwarding", "forwarded on a repeated delivery", fmt.Sprintf("the forward happened in request %s, not on the first delivery", forwards[0].Req))
+				}
 				if len(forwards) != 1 {
 					viol("forward-count", "pub.(*sideEffectActor).InboxForwarding", fmt.Sprintf("want 1 got %d", min(len(forwards), 2)), fmt.Sprintf("%d forwarding deliveries over a history of %d deliveries, want exactly 1 (collections %v, ownership hit %v)", len(forwards), len(sc.Requests), cols, hit))
 					return
